@@ -15,6 +15,15 @@ PROPS = {
         "assumptions": COMMON_ASSUME,
         "must_hit": {"quick": ["connect-during-reload", "request-overlapped-reload"], "thorough": ["connect-during-reload", "request-overlapped-reload", "handler-parked-during-reload"]},
     },
+    "C16": {
+        "level": "exploration",
+        "budget": {"quick": 30, "thorough": 400},
+        "rule": "one evaluation = one seeded history over {start, up to 5 reloads (valid / failing at parse, setup, startup callback, restart callback, listen; through the API or through SIGUSR1), Instance.Stop / casket.Stop, up to 4 signals INT/TERM/QUIT/HUP delivered at arbitrary steps, plain servers exiting by themselves}, with every callback and every server Stop a scheduling point; distinct = distinct fingerprint of the ordered (event kind, actor role) sequence; non-trivial = at least 12 scheduler steps",
+        "nontrivial_steps": 12,
+        "real_vs_stub": "real: casket core (Start, Restart, Stop, ShutdownCallbacks, Wait, executeDirectives, startServers, signal handlers with os.Exit/signal.Notify routed to the simulator by overlay); stub: the server type (fake servers recording listen/serve/stop), the operator, the signal source",
+        "assumptions": COMMON_ASSUME + ["callbacks invoked by the signal-driven shutdown path run under a mutex and a sync.Once and are therefore not scheduling points (parking there would make quiescence undetectable)"],
+        "must_hit": {"quick": ["signal-during-reload", "process-shutdown-checked"], "thorough": ["signal-during-reload", "process-shutdown-checked", "second-SIGINT-force-quit", "exit-with-reload-in-flight"]},
+    },
 }
 
 DST = "deterministic simulation with fault injection (seeded schedule/fault search, synctest bubble, simnet)"
@@ -25,6 +34,12 @@ MANIFEST_TEXT = {
         "design_ref": "DESIGN.md 6 C07",
         "note": "TCP data path is simnet (accept queue shared by dup'ed descriptors, queued connections reset when the last descriptor closes); one known finding (net/http drops a connection whose request head completes after Shutdown began) is listed in known_findings.jsonl",
         "technique": DST + "; oracle: regular register over config versions + socket-table invariants",
+    },
+    "C16": {
+        "text": "seeded search over lifecycle histories (start, reloads succeeding or failing at each stage through the API and through SIGUSR1, stops, repeated and concurrent shutdown signals) against the real casket core with a fake server type; the recorded callback/listen/serve/stop trace is checked against an executable reference automaton written from the statement (exactly-once counts, order on successful reload, restart-failed-and-nothing-else on failed reload, final-shutdown only at process shutdown, Wait returns only after the lineage stopped).",
+        "design_ref": "DESIGN.md 6 C16",
+        "note": "signals and os.Exit are simulator events (build-time overlay of sigtrap*.go); history ends at the recorded exit; servers are stubs",
+        "technique": DST + "; oracle: reference lifecycle automaton over the recorded trace",
     },
 }
 
